@@ -323,9 +323,25 @@ func mustPassFromEntryTo(fn *ssa.Function, sat func(ssa.Instruction) bool, to ss
 // LBRACKET: the same set of predicates (methods called, fields read). One adapted without the other means the
 // printer's own output is read differently for the two (a line starting with `[` after an expression).
 func (c *Ctx) checkSiblingWhitespaceGuards(r *Report, rule string) {
-	fn := c.SSAFn(c.Fn("parser", "Parser.parseExpression"))
+	entry := c.SSAFn(c.Fn("parser", "Parser.parseExpression"))
+	fn := entry
 	lp, _ := constInt64(c.Const("token", "LPAREN"))
 	lb, _ := constInt64(c.Const("token", "LBRACKET"))
+	// the guards sit in parseExpression or in the function of the package its operator loop was moved to
+	for _, h := range c.localHelpers(entry, 1, c.Fn("parser", "Parser.parseExpression")) {
+		has := false
+		eachInstr(h, func(in ssa.Instruction) {
+			if call, ok := in.(*ssa.Call); ok {
+				if obj := calleeObj(call); obj != nil && obj.Name() == "HadWhitespace" {
+					has = true
+				}
+			}
+		})
+		if has {
+			fn = h
+			break
+		}
+	}
 	// the predicates that decide, together with `t == K`, the early return of the guard
 	guard := func(k int64) (map[string]bool, bool) {
 		preds := map[string]bool{}
